@@ -4,4 +4,5 @@ CONSTANTS
   BinOps <- BinL3q
   UnOps <- AllUn
   MaxDepth = 3
+  FloorDiv = TRUE
 INVARIANT Emit
